@@ -36,9 +36,9 @@ def cases(tier, seed):
     base4 = ["index.wtml", "L0X0Y0.png", "L1X0Y0.png", "thumb.jpg"]
     perms = list(itertools.permutations(base4))
     for i in range(0, len(perms), 4):
-        for kind in ("exception", "crash", "transient"):
+        for kind in ("exception", "crash", "transient") + (("sigint",) if i % 8 == 0 else ()):
             out.append(dict(images={"img1": base4}, perms=[list(p) for p in perms[i:i + 4]], kind=kind, seed=R.randrange(1 << 30)))
-    names = ["index.wtml", "L0X0Y0.png", "L1X0Y0.png", "L1X1Y0.png", "thumb.jpg", "a_first.txt", "zz_last.bin", "index_rel.wtml", "Index.wtml"]
+    names = ["index.wtml", "L0X0Y0.png", "L1X0Y0.png", "L1X1Y0.png", "thumb.jpg", "a_first.txt", "zz_last.bin", "index_rel.wtml", "Index.wtml", ".DS_Store", ".hidden.png"]
     nextra = 20 if tier == "quick" else 300
     for i in range(nextra):
         nim = R.choice([1, 1, 2, 3])
@@ -49,7 +49,7 @@ def cases(tier, seed):
             if R.random() < 0.8:
                 fs[R.randrange(len(fs))] = "index.wtml"
             images["img%d" % k] = fs
-        out.append(dict(images=images, perms=None, nperm=3 if tier == "quick" else 6, kind=R.choice(["exception", "crash", "transient"]), seed=R.randrange(1 << 30)))
+        out.append(dict(images=images, perms=None, nperm=3 if tier == "quick" else 6, kind=R.choice(["exception", "crash", "transient", "sigint"]), seed=R.randrange(1 << 30)))
     if tier == "thorough":
         for files in (names[:5], names[:6]):
             perms = list(itertools.permutations(files))
@@ -107,6 +107,12 @@ def run_publish(work, store, order, img_order, fault, kind, calls_path):
         def fail():
             if kind == "crash":
                 os._exit(9)
+            if kind == "sigint":
+                # the operator presses Ctrl-C: a real SIGINT is delivered to the process at this point of the session
+                import signal
+
+                signal.raise_signal(signal.SIGINT)
+                return  # (only reached if something has taken the interrupt over; the session then simply goes on)
             if kind == "transient":
                 # an ordinary, transient I/O error of the store (connection drop): only this one call fails
                 raise OSError("injected transient store error")
@@ -169,11 +175,17 @@ def run_publish(work, store, order, img_order, fault, kind, calls_path):
         _, st = os.waitpid(pid, 0)
         code = os.waitstatus_to_exitcode(st)
         return "ok" if code == 0 else ("fault" if code == 9 else "error%d" % code)
+    import signal
+
+    old_handler = signal.signal(signal.SIGINT, signal.default_int_handler) if kind == "sigint" else None
     try:
         body()
         return "ok"
-    except (Crash, OSError):
+    except (Crash, OSError, KeyboardInterrupt):
         return "fault"
+    finally:
+        if old_handler is not None:
+            signal.signal(signal.SIGINT, old_handler)
 
 
 def real_refresh(work, store, images, probs, label):
